@@ -169,3 +169,10 @@ def x16(cx: Cx, ob: Ob) -> None:
     check_match_record(cx, ob)
     check_merge(cx, ob)
     add_record_guards(cx, ob)
+
+
+@obligation("C06-X3", "no memoised derived values (cached_property / lru_cache) on Record, Reference or Converter objects unless _index empties the cache unconditionally: a remembered standardisation answer (in particular \"unknown\") outlives add_prefix / add_record", floor=3)
+def x3(cx: Cx, ob: Ob) -> None:
+    from ..rules import cached_derivations
+
+    cached_derivations(cx, ob)
